@@ -19,6 +19,7 @@ import (
 	"strconv"
 	"strings"
 	"sync"
+	"time"
 )
 
 // A data socket is used to send non-control data between the client and
@@ -103,6 +104,10 @@ type ftpPassiveSocket struct {
 	tlsConfig *tls.Config
 }
 
+// passiveAcceptTimeout is how long a passive data socket waits for the client
+// to connect
+const passiveAcceptTimeout = 30 * time.Second
+
 func newPassiveSocket(host string, port int, sessionid string, tlsConfig *tls.Config) (DataSocket, error) {
 	socket := &ftpPassiveSocket{
 		host:      host,
@@ -159,12 +164,17 @@ func (socket *ftpPassiveSocket) GoListenAndServe(sessionid string) (err error) {
 		return
 	}
 
-	var listener net.Listener
-	listener, err = net.ListenTCP("tcp", laddr)
+	tcpListener, err := net.ListenTCP("tcp", laddr)
 	if err != nil {
 		log.Debug(sessionid, err.Error())
 		return
 	}
+
+	// nobody may ever connect to the port: the accept below, and the
+	// command that waits for the data connection, give up after a while
+	tcpListener.SetDeadline(time.Now().Add(passiveAcceptTimeout))
+
+	var listener net.Listener = tcpListener
 
 	add := listener.Addr()
 	parts := strings.Split(add.String(), ":")
